@@ -31,7 +31,23 @@ AggStmts ==
     <<<<"N", "fn:count", <<>>>>, <<"M", "fn:plus", <<Var("N"), N(1)>>>>>> }
 AggHead(key, stmts) ==
   A("agg", [i \in 1..Len(key) |-> Var(key[i])] \o [i \in 1..Len(stmts) |-> Var(stmts[i][1])])
+\* bodies that define a further variable Z by an equality, written in either orientation (Z = expr, expr = Z, 4 = Z),
+\* with Z as group key or reducer argument
+EqBodies ==
+  { <<<<"pos", A("e", <<X, Y>>)>>, <<"eq", Z, Ap("fn:plus", <<Y, N(1)>>)>>>>,
+    <<<<"pos", A("e", <<X, Y>>)>>, <<"eq", Ap("fn:plus", <<Y, N(1)>>), Z>>>>,
+    <<<<"eq", Ap("fn:mult", <<X, Y>>), Z>>, <<"pos", A("e", <<X, Y>>)>>>>,
+    <<<<"pos", A("e", <<X, Y>>)>>, <<"eq", N(4), Z>>>>,
+    <<<<"pos", A("e", <<X, Y>>)>>, <<"pos", A("f", <<X>>)>>, <<"eq", Ap("fn:minus", <<Y, X>>), Z>>>> }
+EqKeys == { <<>>, <<"X">>, <<"Z">>, <<"X", "Z">> }
+EqStmts ==
+  { <<<<"N", "fn:count", <<>>>>>>,
+    <<<<"N", "fn:sum", <<Z>>>>>>,
+    <<<<"N", "fn:max", <<Z>>>>>>,
+    <<<<"N", "fn:collect_distinct", <<Z>>>>>>,
+    <<<<"N", "fn:count", <<>>>>, <<"M", "fn:min", <<Z>>>>>> }
 AggRules == {[h |-> AggHead(k, st), b |-> bd, t |-> <<"do", k, st>>] : bd \in AggBodies, k \in AggKeys, st \in AggStmts}
+            \cup {[h |-> AggHead(k, st), b |-> bd, t |-> <<"do", k, st>>] : bd \in EqBodies, k \in EqKeys, st \in EqStmts}
 \* a plain rule that reads an aggregate in a higher stratum, and plain rules for the same head
 Readers == { [h |-> A("big", <<X>>), b |-> <<<<"pos", A("agg", <<X, Var("N")>>)>>, <<"gt", Var("N"), N(1)>>>>, t |-> <<"none">>],
              [h |-> A("agg", <<X, Y>>), b |-> <<<<"pos", A("e", <<X, Y>>)>>, <<"pos", A("f", <<X>>)>>>>, t |-> <<"none">>],
